@@ -129,8 +129,12 @@ def _expr_to_term(text: str):
 
 
 class Closure:
-    def __init__(self, params, body, env, interp, is_lambda):
-        self.params, self.body, self.env, self.interp, self.is_lambda = params, body, env, interp, is_lambda
+    def __init__(self, params, body, env, interp, is_lambda, mod=None):
+        self.params, self.body, self.env, self.interp, self.is_lambda, self.mod = params, body, env, interp, is_lambda, mod
+
+    def __call__(self, *args, **kwargs):
+        # lets builtins of the checker (min(key=...), sorted(key=...), map) call back into interpreted code
+        return self.interp.apply(self, list(args), kwargs, self.mod)
 
 
 EXC_PARENTS = {
@@ -192,7 +196,7 @@ CONSTS = {"builtins": _builtins, "inf": math.inf, "math.inf": math.inf, "math.na
           "sys.float_info.max": sys.float_info.max, "sys.float_info.epsilon": sys.float_info.epsilon, "sys.maxsize": sys.maxsize}
 STR_METHODS = {"startswith", "endswith", "lstrip", "rstrip", "strip", "lower", "upper", "split", "rpartition", "partition", "replace", "join",
                "removeprefix", "removesuffix", "decode", "encode", "isdigit", "format", "count", "find", "is_integer", "real", "imag", "hex", "bit_length",
-               "conjugate", "as_integer_ratio", "get", "keys", "values", "items", "index", "copy", "union", "intersection", "issubset", "issuperset", "difference"}
+               "conjugate", "as_integer_ratio", "get", "keys", "values", "items", "index", "copy", "union", "intersection", "issubset", "issuperset", "difference", "isdisjoint"}
 
 _BIN = {
     ast.Add: lambda a, b: a + b, ast.Sub: lambda a, b: a - b, ast.Mult: lambda a, b: a * b, ast.Div: lambda a, b: a / b,
@@ -397,7 +401,7 @@ class Interp:
                     out.append(_guard(format, val, spec))
             return "".join(out)
         if isinstance(e, ast.Lambda):
-            return Closure([a.arg for a in e.args.args], e.body, dict(env), self, True)
+            return Closure([a.arg for a in e.args.args], e.body, dict(env), self, True, mod)
         if isinstance(e, (ast.ListComp, ast.GeneratorExp, ast.SetComp)):
             res = []
             self._comp(e, 0, dict(env), mod, res)
@@ -439,7 +443,12 @@ class Interp:
                 args.extend(self.ev(a.value, env, mod))
             else:
                 args.append(self.ev(a, env, mod))
-        kwargs = {k.arg: self.ev(k.value, env, mod) for k in e.keywords if k.arg}
+        kwargs = {}
+        for k in e.keywords:
+            if k.arg:
+                kwargs[k.arg] = self.ev(k.value, env, mod)
+            else:
+                kwargs.update(self.ev(k.value, env, mod))
         if name in self.sinks:
             self.sink_calls.append((name, args, kwargs))
             return None
@@ -624,6 +633,10 @@ class Interp:
                 env[n] = Token(n)
             else:
                 raise Undecided(f"missing argument `{n}` of {fn.name}")
+        if a.vararg is not None:
+            env[a.vararg.arg] = tuple(args[len(names):])
+        if a.kwarg is not None:
+            env[a.kwarg.arg] = {k: v for k, v in kwargs.items() if k not in names and k not in [x.arg for x in a.kwonlyargs]}
         for k, d in zip(a.kwonlyargs, a.kw_defaults):
             if k.arg in kwargs:
                 env[k.arg] = kwargs[k.arg]
@@ -785,7 +798,7 @@ class Interp:
                     return
             return
         if isinstance(s, (ast.FunctionDef,)):
-            env[s.name] = Closure([a.arg for a in s.args.args], s.body, env, self, False)
+            env[s.name] = Closure([a.arg for a in s.args.args], s.body, env, self, False, mod)
             return
         raise Undecided(f"statement {type(s).__name__}")
 
